@@ -1319,6 +1319,11 @@ class FnPE:
         m.test = t
         m.body = self.expr(e.body, env, None)
         m.orelse = self.expr(e.orelse, env, None)
+        # (a, b) if c else (x, y)  ->  (a if c else x, b if c else y)     (c a name: evaluating it again is harmless)
+        if isinstance(t, ast.Name) and is_seq_lit(m.body) and is_seq_lit(m.orelse) and type(m.body) is type(m.orelse) and isinstance(m.body, ast.Tuple) \
+                and len(m.body.elts) == len(m.orelse.elts) and 0 < len(m.body.elts) <= MAXUNROLL:
+            elts = [ast.copy_location(ast.IfExp(test=load(t), body=a, orelse=b), e) for a, b in zip(m.body.elts, m.orelse.elts)]
+            return ast.copy_location(ast.Tuple(elts=elts, ctx=ast.Load()), e)
         return m
 
     def x_BoolOp(self, e, env, pre):
